@@ -2,13 +2,13 @@ import QipVerif.Util.Proto
 import QipVerif.Model.Sched
 /-! Driver for the scheduler model (C05, C11).
 
-Instruction syntax: `NAME:t,t:c,c:dur`, several joined by `|` (targets / controls already
+Instruction syntax: `NAME:t,t:c,c:dur[:sc]` (`sc` = 0/1: name in `_SELF_COMMUTING_GATES`, default 1), several joined by `|` (targets / controls already
 sorted as `Instruction.__init__` leaves them; empty controls = `None`; `dur` an integer
 numerator).
 
 * `comm g=A|B`                                              →  `ok 0|1`    (`commutation_rules`)
 * `share g=A|B`                                             →  `ok 0|1`    (`not qubit_constraint`)
-* `sched method=ASAP|ALAP perm=0|1 gates=… [shuf=π;π;…]`    →
+* `sched method=ASAP|ALAP perm=0|1 gates=… [shuf=π;π;…] [fix=0|1]` (`fix`: repaired conflict-edge recording) →
   `ok used=<#shuffles> cycles=a,b;c;… idx=… starts=… edges=i>j,…`
   (`cycles` as returned with `return_cycles_list=True`, `idx` = `gate_cycles_indices`,
   `starts` = `instruction_start_time` numerators, `edges` = sorted dependency edges)
@@ -21,7 +21,11 @@ def parseIns (s : String) : Option Ins :=
   match s.splitOn ":" with
   | [nm, ts, cs, d] =>
     match natList? ts, natList? cs, d.toInt? with
-    | some t, some c, some dd => some ⟨nm, t, c, dd⟩
+    | some t, some c, some dd => some ⟨nm, t, c, dd, true⟩
+    | _, _, _ => none
+  | [nm, ts, cs, d, f] =>
+    match natList? ts, natList? cs, d.toInt? with
+    | some t, some c, some dd => if f == "0" then some ⟨nm, t, c, dd, false⟩ else if f == "1" then some ⟨nm, t, c, dd, true⟩ else none
     | _, _, _ => none
   | _ => none
 
@@ -57,7 +61,7 @@ def step (line : String) : String :=
         if m != "ASAP" && m != "ALAP" then "bad-op" else
         if ns.isEmpty then "ok used=0 cycles= idx= starts= edges=" else
         if ns.all (fun i => i.used.isEmpty) then "err noqubits" else
-        let cfg : Cfg := ⟨m == "ALAP", p != 0, sh⟩
+        let cfg : Cfg := ⟨m == "ALAP", p != 0, sh, (fNat? fs "fix").getD 0 != 0⟩
         let cyc := gateCycles cfg ns
         let e := dedupSorted ns.length (depEdges cfg.allowPerm ns)
         s!"ok used={shufflesUsed cfg ns} cycles={showCycles cyc} idx={showNats (cycleIndices ns.length cyc)} starts={showInts (pulseStarts cfg ns)} edges={",".intercalate (e.map fun p => s!"{p.1}>{p.2}")}"
